@@ -104,18 +104,24 @@ Proof.
   destruct (truthy r2); [apply clean_utterance_content_total | eauto].
 Qed.
 
+Lemma replace_nonempty : forall p r c s, r <> [] -> replace p r (c :: s) <> [].
+Proof.
+  intros p r c s NR. unfold replace. cbn [replace_fuel List.length].
+  destruct (starts_with p (c :: s)).
+  - destruct r as [|x r]; [congruence|]. simpl. discriminate.
+  - discriminate.
+Qed.
+
 (* the utterance produced from LLM output is never the empty string *)
 Lemma bot_message_post_nonempty : forall s r, bot_message_post s = Ok r -> r <> [].
 Proof.
   intros s r H. unfold bot_message_post in H.
-  destruct (get_multiline_response_total s) as [r1 E1]. rewrite E1 in H. simpl in H.
-  destruct (strip_quotes_total r1) as [r2 E2]. rewrite E2 in H. simpl in H.
+  destruct (get_multiline_response_total s) as [r1 E1]. rewrite E1 in H. cbn [bind] in H.
+  destruct (strip_quotes_total r1) as [r2 E2]. rewrite E2 in H. cbn [bind] in H.
   destruct (truthy r2) eqn:T.
   - unfold clean_utterance_content in H. rewrite T in H. inversion H; subst. clear H.
     destruct r2 as [|c r2]; [discriminate|].
-    unfold replace. simpl.
-    destruct (starts_with ESC_NL (c :: r2)); simpl; [|discriminate].
-    unfold ESC_NL. simpl. discriminate.
+    apply replace_nonempty. discriminate.
   - inversion H. unfold FALLBACK_MESSAGE. simpl. discriminate.
 Qed.
 
@@ -130,13 +136,15 @@ Proof.
   intro s. split.
   - intro E. subst. reflexivity.
   - intro NE. destruct s as [|c s]; [congruence|].
-    unfold single_call_post. unfold get_top_k_nonempty_lines. simpl truthy. simpl negb. cbv iota. simpl bind.
+    unfold single_call_post, get_top_k_nonempty_lines, get_multiline_response.
+    cbn [truthy teq negb bind].
     set (lines := firstn 2 (filter not_comment (map strip (split_nl (c :: s))))).
-    destruct (nth_error lines 1) as [bi|]; [|simpl; eauto].
-    destruct (truthy bi); [|simpl; eauto].
-    destruct (find bi (c :: s)) as [pos|]; [|simpl; eauto].
-    destruct (get_multiline_response_total (skipn (pos + List.length bi) (c :: s))) as [m1 E1]. rewrite E1. simpl.
-    destruct (strip_quotes_total m1) as [m2 E2]. rewrite E2. simpl. eauto.
+    destruct (nth_error lines 1) as [bi|]; [|cbn [bind]; eauto].
+    destruct (truthy bi); [|cbn [bind]; eauto].
+    destruct (find bi (c :: s)) as [pos|]; [|cbn [bind]; eauto].
+    cbn [bind].
+    match goal with |- context [strip_quotes ?X] => destruct (strip_quotes_total X) as [m2 E2]; rewrite E2 end.
+    cbn [bind]. eauto.
 Qed.
 
 (* generate_bot_message: `bot_intent[0]` raises exactly for the empty, not predefined intent *)
@@ -147,12 +155,12 @@ Proof.
   intros predefined ctx_has bi. unfold bot_message_source. split; [split|].
   - intro H. destruct bi as [|c bi].
     + destruct (predefined []); [discriminate|]. auto.
-    + destruct (predefined (c :: bi)); [discriminate|]. simpl in H.
-      destruct ((c =? DOLLAR) && ctx_has (skipn 1 (c :: bi))); discriminate.
+    + destruct (predefined (c :: bi)); [discriminate|]. cbn [idx nth_error bind] in H.
+      match type of H with context [if ?b then _ else _] => destruct b end; discriminate.
   - intros [E P]. subst. rewrite P. reflexivity.
-  - intros e H. destruct (predefined bi); [discriminate|]. destruct bi as [|c bi]; simpl in H.
+  - intros e H. destruct (predefined bi); [discriminate|]. destruct bi as [|c bi]; cbn [idx nth_error bind] in H.
     + inversion H. reflexivity.
-    + destruct ((c =? DOLLAR) && ctx_has (skipn 1 (c :: bi))); discriminate.
+    + match type of H with context [if ?b then _ else _] => destruct b end; discriminate.
 Qed.
 
 (* ... and the empty bot intent IS produced by the next-step post-processing *)
@@ -207,10 +215,7 @@ Qed.
 
 Lemma removelast_length : forall (A : Type) (l : list A), l <> [] -> List.length (removelast l) = pred (List.length l).
 Proof.
-  intros A l. induction l as [|x l IH]; intro NE; [congruence|].
-  destruct l as [|y l]; [reflexivity|].
-  change (removelast (x :: y :: l)) with (x :: removelast (y :: l)). simpl List.length.
-  rewrite IH by discriminate. reflexivity.
+  intros A l NE. rewrite removelast_firstn_len. rewrite firstn_length. lia.
 Qed.
 
 Lemma shrink_step_decreases : forall accepts lines lines',
@@ -352,3 +357,55 @@ Proof. intros. eauto. Qed.
 
 Lemma hide_prev_turn_in_error : In EHidePrevTurn internal_error_events.
 Proof. simpl. auto. Qed.
+
+(* ---------------------------------------------------------------- bundle *)
+
+(* every modelled helper answers on EVERY text; the only exceptions of the per-call
+   post-processing are the two characterised ones (both inside actions, hence contained) *)
+Theorem helpers_total : forall s : text,
+  (exists r, get_first_nonempty_line s = Ok r) /\
+  (exists r, get_top_k_nonempty_lines s 2 = Ok r) /\
+  (exists r, strip_quotes s = Ok r) /\
+  (exists r, get_multiline_response s = Ok r) /\
+  (exists r, clean_utterance_content s = Ok r) /\
+  (exists r, verbose_v1_parser s = Ok r) /\
+  (exists r, user_intent_post s = Ok r) /\
+  (exists r, next_step_post s = Ok r) /\
+  (exists r, bot_message_post s = Ok r /\ r <> []) /\
+  (exists r, general_post s = Ok r) /\
+  (s <> [] -> exists r, single_call_post s = Ok r) /\
+  (s = [] -> single_call_post s = Err TypeError) /\
+  (forall parse vw fid, exists o, multi_step_post parse vw fid s = Some o).
+Proof.
+  intro s.
+  repeat split.
+  - apply get_first_nonempty_line_total.
+  - apply get_top_k_total.
+  - apply strip_quotes_total.
+  - apply get_multiline_response_total.
+  - apply clean_utterance_content_total.
+  - apply verbose_v1_parser_total.
+  - apply user_intent_post_total.
+  - apply next_step_post_total.
+  - destruct (bot_message_post_total s) as [r E]. exists r. split; [exact E|]. eapply bot_message_post_nonempty; eauto.
+  - apply general_post_total.
+  - apply (proj2 (single_call_post_char s)).
+  - apply (proj1 (single_call_post_char s)).
+  - intros. apply multi_step_total.
+Qed.
+
+(* non-vacuity *)
+Example helpers_example_hostile :
+  user_intent_post (s2t "user ") = Ok (s2t "user") /\
+  next_step_post (s2t "bot ,x") = Ok [] /\
+  bot_message_post (s2t "   ") = Ok FALLBACK_MESSAGE /\
+  bot_message_post (s2t "  ""{{ 7*191 }} $secret""") = Ok (s2t "{{ 7*191 }} $secret") /\
+  general_post (s2t """") = Ok [] /\
+  single_call_post (s2t "x") = Ok (s2t "x", FALLBACK_BOT_INTENT, FALLBACK_MESSAGE).
+Proof. vm_compute. repeat split. Qed.
+
+Example shrink_example :
+  let acc := fun ls : list text => Nat.eqb (List.length ls) 2 in
+  shrink_fuel acc 4 [s2t "bot a"; s2t "bot b"; s2t "!!"; s2t "??"] = Some (StartFlow [s2t "bot a"; s2t "bot b"]) /\
+  shrink_fuel (fun _ => false) 3 [s2t "x"; s2t "y"; s2t "z"] = Some GeneralResponse.
+Proof. vm_compute. split; reflexivity. Qed.
